@@ -152,6 +152,14 @@ def make_source(data: bytes, kind="bytesio"):
         return pipe_stream(data, int(kind.split(":")[1]))
     if kind == "tracking":
         return TrackingStream(data)
+    if kind.startswith("socket:"):
+        # the same bytes over a scripted socket (37-byte deliveries): a plain stream socket, a
+        # message-oriented one, or a subclass with read() / write() of its own
+        sk = kind.split(":")[1]
+        cls = TLSLikeSocket if sk == "tls-like" else ScriptedSocket
+        so = cls(data, [37] * (len(data) // 37 + 2), "close", datagram=sk == "datagram")
+        _OPEN.append(so)
+        return so
     if kind == "rawpipe":
         return PipeLike(data, None)  # unbuffered raw stream (reads are served in full, as a blocking pipe does)
     if kind == "fileio":
@@ -182,7 +190,8 @@ class ScriptedSocket(socket.socket):
     hands out `data` following `chunks` (sizes), never more than bufsize, then
     ends with `end`: 'close' (b''), 'timeout' (TimeoutError) or 'oserror'."""
 
-    def __init__(self, data: bytes, chunks, end="close", pauses=(), pause_exc=TimeoutError):
+    def __init__(self, data: bytes, chunks, end="close", pauses=(), pause_exc=TimeoutError, datagram=False,
+                 write_fails=None):
         super().__init__(socket.AF_INET, socket.SOCK_STREAM)
         self._data = data
         self._pos = 0
@@ -193,6 +202,10 @@ class ScriptedSocket(socket.socket):
         self._end = end
         self.recv_calls = 0
         self.recv_sizes = []
+        self._datagram = datagram      # message-oriented: what does not fit in the request is discarded
+        self._write_fails = write_fails  # None: send() succeeds; an exception class: send() raises it
+        self.sent = []
+        self.truncated = 0
 
     def recv(self, bufsize, *flags):  # noqa
         self.recv_calls += 1
@@ -203,14 +216,27 @@ class ScriptedSocket(socket.socket):
                 return b""
             if self._end == "timeout":
                 raise TimeoutError("scripted timeout")
+            if self._end == "reset":
+                raise ConnectionResetError(104, "scripted: connection reset by peer")
+            if self._end == "aborted":
+                raise ConnectionAbortedError(103, "scripted: connection aborted")
             raise OSError("scripted error")
         if bufsize <= 0:
             return b""  # like a real socket: a zero-size request returns nothing
         if self._pos in self._pauses:
             self._pauses.discard(self._pos)
-            raise self._pause_exc("scripted quiet period")
+            if self.gettimeout() is not None:
+                raise self._pause_exc("scripted quiet period")
+            # (a blocking socket simply waits until the data arrives)
         want = self._chunks[self._ci] if self._ci < len(self._chunks) else len(self._data)
         self._ci += 1
+        if self._datagram:
+            dg = max(1, min(want, len(self._data) - self._pos))
+            out = self._data[self._pos:self._pos + min(dg, bufsize)]
+            self.truncated += max(0, dg - bufsize)
+            self._pos += dg
+            self.recv_sizes.append(len(out))
+            return out
         n = max(1, min(bufsize, want, len(self._data) - self._pos))
         nxt = [p for p in self._pauses if self._pos < p < self._pos + n]
         if nxt:
@@ -230,6 +256,28 @@ def handler_returning(k, sink=None):
         return (None, True, False, err, 17)[k % 5]
 
     return handler
+
+
+def _scripted_send(self, data, *flags):
+    self.sent.append(bytes(data))
+    if self._write_fails is not None:
+        raise self._write_fails(32, "scripted: the peer no longer reads")
+    return len(data)
+
+
+ScriptedSocket.send = _scripted_send
+ScriptedSocket.sendall = lambda self, data, *flags: _scripted_send(self, data) and None
+
+
+class TLSLikeSocket(ScriptedSocket):
+    """A socket subclass that also has read() / write() methods of its own, like
+    ssl.SSLSocket: read(n) returns at most n bytes of what has arrived."""
+
+    def read(self, n=1024, buffer=None):
+        return self.recv(n)
+
+    def write(self, data):
+        return self.send(data)
 
 
 def protocol_errors():
